@@ -576,7 +576,7 @@ structure St extends Core where
   acc : Int := 0
   memoDepth : Nat := 0
   /-- how many functions that must not write a signal are on the call stack (`ImmediateEffect::new_mut`
-functions, `AsyncDerived`s under construction) -/
+functions) -/
   mutDepth : Nat := 0
   /-- ghost: a `watch` handler created an arena value / registered a cleanup / looked up a context
   while no `Owner::with` frame was active at all -/
@@ -758,13 +758,14 @@ def finishAsync (st : St) (e : Nat) : St :=
 def setMutDepth (st : St) (d : Nat) : St := { st with mutDepth := d }
 
 /-- `AsyncDerived::new(|| { body; ready future })`: owner, first run at once under
-`owner.with_cleanup`, task spawned, then the arena item.  (No `z` writes while the value is being
-constructed: a notification that reaches a half-built `AsyncDerived` is outside the model.) -/
+`owner.with_cleanup`, task spawned, then the arena item.  A notification that reaches the value
+while it is being constructed (its function, or something created in it, wrote a signal it reads)
+is kept: the task re-runs it at its first poll (F-C10-7, repaired in /repo 112d2c1). -/
 def newAsync (ex : St → BOp → St) (st : St) (b : Nat) : St :=
   finishAsync
     (addTask
       (setMutDepth
-        (runScoped ex (setMutDepth (pushEager st b EffKind.async) (st.mutDepth + 1)) st.effs.length
+        (runScoped ex (setMutDepth (pushEager st b EffKind.async) st.mutDepth) st.effs.length
           (eagerOwner st) b)
         st.mutDepth)
       st.effs.length)
@@ -882,19 +883,10 @@ def setSig (ex : St → BOp → St) (st : St) (s : Nat) (v : Int) : St :=
     else st
   | none => st
 
-/-- the observer of the body being run is an `AsyncDerived` -/
-def obsAsync (st : St) : Bool :=
-  match st.obs with
-  | some (.eff e) =>
-    match st.effs[e]? with
-    | some er => er.kind == EffKind.async
-    | none => false
-  | _ => false
-
 /-- the `z<s>.<v>` token: `if s.get_untracked() < v { s.set(v) }`; not inside a memo, not while a
-`new_mut` function is running (it would panic), not in the function of an `AsyncDerived` -/
+`new_mut` function is running (it would panic) -/
 def writeSig (ex : St → BOp → St) (st : St) (s : Nat) (v : Nat) : St :=
-  if st.memoDepth > 0 || st.mutDepth > 0 || obsAsync st then st
+  if st.memoDepth > 0 || st.mutDepth > 0 then st
   else
     match st.sigs[s]? with
     | some r => if sigLive st s && decide (r.val < (v : Int)) then setSig ex st s v else st
